@@ -10,8 +10,11 @@
     while an earlier tick event of the connection is pending — is a hypothesis of the run
     here ([run_ok]) and is proved to be an invariant in Contract.v.
     This file is the one-connection form (global port indices = the connection's indices);
-    ProjectN.v / ContractN.v do the same for any number of connections.  Still missing in
-    all of them: the analogous projection for draining components ([dstep], clause 2). *)
+    ProjectN.v / ContractN.v do the same for any number of connections; Drain.v / ProjectK.v
+    give the analogous projection for draining components (clause 2), onto the fine-grained
+    system [estep].  Still missing: nothing for harness-built worlds whose components drain
+    ([dr_ok]); a component that does not drain is outside clause 2, and the coarse [dstep]
+    system of Proofs.v is not itself the target of a projection. *)
 From Coq Require Import Sorting.Permutation.
 From Akita Require Import Lib.Base Lib.Fifo Lib.Port Lib.Conn C10.Model C10.Proofs C09.Model C09.Proofs.
 Local Open Scope N_scope.
